@@ -580,4 +580,32 @@ func (cliSim) Run(e *Env, ci interface{}) {
 	default:
 		e.Skip("invalid-case")
 	}
+	// a command value carries no state from one Execute to the next: executed
+	// again later it must answer like a freshly built command at that instant
+	switch c.Cmd.Kind {
+	case "view", "view-raw", "sum", "diff":
+		if c.Cmd.HasFrom || c.Cmd.HasUntil {
+			return // explicit bounds are absolute instants: a fresh command would get other ones
+		}
+		if e.Failed() || c.Tick != nil || r.first == nil || r.first.built == nil || r.first.aborted || len(r.first.panics) > 0 || c.SchedSeed%4 != 1 || r.s.Aborting() {
+			return
+		}
+		Advance(e, c.Files[0].Layout.Archs[0].S+int64(c.SchedSeed%7))
+		fresh := r.run1(c.Cmd, "fresh")
+		again := r.rerun(r.first, "again")
+		if fresh.aborted || again.aborted || len(fresh.panics) > 0 {
+			return
+		}
+		if len(again.panics) > 0 {
+			e.Violate(e.Prop+".re-execution", "%s: executing the same command value a second time panicked: %s", c.Cmd.Kind, again.panics[0])
+			return
+		}
+		fo, ao := normaliseOut(fresh.out, e.Dir, true), normaliseOut(again.out, e.Dir, true)
+		if outcomeClass(fresh.err) != outcomeClass(again.err) || fo != ao {
+			e.Violate(e.Prop+".re-execution", "%s: the command value executed a second time %d s later answers differently from a freshly built command at the same instant: outcome %s vs %s, output %q vs %q",
+				c.Cmd.Kind, Now()-r.first.now, outcomeClass(again.err), outcomeClass(fresh.err), diffSnippet(ao, fo), diffSnippet(fo, ao))
+			return
+		}
+		e.Probe("command-value-executed-again-later")
+	}
 }
